@@ -6,6 +6,8 @@
 import os,sys
 R='/repo/'
 def mut(name, rel, edits):
+    return lambda: _mut(name, rel, edits)
+def _mut(name, rel, edits):
     s=open(R+rel).read()
     for old,new,cnt in edits:
         assert s.count(old)>=1, (name, old[:60], s.count(old))
@@ -63,7 +65,7 @@ M['c05m6']=mut('c05m6','pkg/basictl/basictl.go',[('''		w = alloc(w, base64.StdEn
 		base64.StdEncoding.Encode(w[beforeAllocation:], []byte(s))''','''		w = alloc(w, base64.URLEncoding.EncodedLen(len(s)))
 		base64.URLEncoding.Encode(w[beforeAllocation:], []byte(s))''',1)])
 
-# candidate fixes (proposed-fix-N of C05)
+# candidate fixes (proposed-fix-N); those whose defect has been fixed in /repo meanwhile no longer apply (assertion)
 M['fix1']=mut('fix1','internal/puregen/gengo/qt_struct.qtpl.go',[
  ('} else if emptyCond != "" && struct_.wr.OriginTL2() {','} else if emptyCond != "" && (struct_.wr.OriginTL2() || field.recursive) {',2),
  ('} else if emptyCond != "" && !struct_.wr.OriginTL2() {','} else if emptyCond != "" && !(struct_.wr.OriginTL2() || field.recursive) {',2)])
@@ -252,6 +254,8 @@ M['fixDictB']=mut('fixDictB','pkg/basictl/basictl.go',[("func JSONWriteString(w 
 
 # defects fixed in /repo after this check reported them: the pre-fix file of the fixing commit is a breaking change
 def prefix(name, commit, rel):
+    return lambda: _prefix(name, commit, rel)
+def _prefix(name, commit, rel):
     import subprocess
     d='/var/tmp/c0506-mut/'+name; os.makedirs(d,exist_ok=True)
     p=d+'/'+os.path.basename(rel)
@@ -261,4 +265,4 @@ M['c06m7']=prefix('c06m7','2d477779','internal/puregen/gengo/qt_union.qtpl.go') 
 M['c06m8']=prefix('c06m8','514ac841','internal/puregen/gengo/qt_struct.qtpl.go')  # G4: masked recursive field left nil (TL2-enabled)
 M['c05m7']=prefix('c05m7','a4f08751','internal/puregen/gengo/qt_maybe.qtpl.go')   # F3: Maybe JSON writer dereferences a nil receiver
 for k in sys.argv[1:]:
-    print(M[k])
+    print(M[k]())
